@@ -603,6 +603,59 @@ def check_seek_state(ck, prog):
     ck.floor("C13-SEEKSTATE", 8, "obligations")
 
 
+def check_nonempty_base(ck, prog):
+    """uncompressed_sum is cumulative within a Stream, a group's first Record continues from group->node.uncompressed_base
+    (iter_set_info computes the Block's size from exactly that: `record == 0 ? group->node.uncompressed_base :
+    records[record - 1].uncompressed_sum`).  The "is this Block empty" test of LZMA_INDEX_ITER_NONEMPTY_BLOCK has to use
+    the same predecessor, otherwise an empty Block that happens to be the first Record of a later group is returned."""
+    f = prog.fn("lzma_index_iter_next", IDX)
+    ck.saw_function(f)
+
+    def leaves(n, depth=0):
+        n = ex.strip(n)
+        if n is None:
+            return []
+        if n.get("k") == "cond":
+            return leaves(n.get("t"), depth) + leaves(n.get("f"), depth)
+        if n.get("k") == "var" and n.get("s") != "p" and depth < 3:
+            out = []
+            for b, i, e in f.iter_elems():
+                d = ex.deref(e)
+                if d.get("k") == "decl" and d.get("n") == n["n"] and d.get("init") is not None:
+                    out += leaves(d["init"], depth + 1)
+                for (l, r, op, node) in ex.writes(e):
+                    ls = ex.strip(l)
+                    if ls is not None and ls.get("k") == "var" and ls["n"] == n["n"] and r is not None and op == "=":
+                        out += leaves(r, depth + 1)
+            return out or [n]
+        return [n]
+    prev = []
+    site = None
+    for b in f.blocks.values():
+        if not (b.term and "cond" in b.term):
+            continue
+        c = ex.strip(b.term["cond"])
+        if c is None or c.get("k") != "bin" or c["op"] not in ("==", "!="):
+            continue
+        for me, other in ((c["l"], c["r"]), (c["r"], c["l"])):
+            t = ex.show(ex.strip(me))
+            if t.startswith("group->records[") and t.endswith(".uncompressed_sum") and "- 1" not in t:
+                prev += leaves(other)
+                site = site or c
+    if not prev:
+        raise AnalysisBroken("lzma_index_iter_next: the emptiness comparison of LZMA_INDEX_ITER_NONEMPTY_BLOCK was not found")
+    txt = [ex.show(x) for x in prev]
+    has_base = any("node.uncompressed_base" in t for t in txt)
+    const = [t for x, t in zip(prev, txt) if ex.const_val(x) is not None]
+    ok = has_base and not const
+    ck.ob("C13-ITER", "nonempty-base", ok, common.where(f, site),
+          "lzma_index_iter_next: emptiness of a Record is tested against %s" % sorted(set(txt)) if ok else
+          "lzma_index_iter_next(): the emptiness test of LZMA_INDEX_ITER_NONEMPTY_BLOCK compares records[record].uncompressed_sum "
+          "with %s; for the first Record of a group the predecessor is group->node.uncompressed_base (as iter_set_info "
+          "computes the Block size): an empty Block at the start of a later group is not skipped" % sorted(set(txt)),
+          key="ITER:nonempty-base")
+
+
 def run(ck):
     ck.explanation = (
         "Field-coverage, aggregate-update, effect-ordering (strong guarantee) and limit-guard rules over "
@@ -623,7 +676,12 @@ def run(ck):
     from . import C05
     ck.rule("C13-IDXDEC", "index_decode reaches LZMA_STREAM_END only through the Index checks")
     evaluate(ck, prog, "C13-IDXDEC", [t for t in C05.TABLE if getattr(t, "fn", "") == "index_decode"], floor=4)
+    # "... for every read size": the Index decoder's running CRC32 covers exactly the bytes before the CRC32 field,
+    # wherever a read ends (rule shared with C06)
+    from . import C06
+    C06.check_crc(ck, prog)
     check_iter(ck, prog)
+    check_nonempty_base(ck, prog)
     check_seek(ck, prog)
     check_seek_state(ck, prog)
     check_treewalk(ck, prog)
@@ -635,5 +693,13 @@ def run(ck):
                          "member it updates on every way out that the caller continues from")
     reinit.check_local_applied(ck, prog, "C13-APPLY", files={"file_info.c", "index_decoder.c", "index_hash.c"})
     ck.floor("C13-APPLY", 4)
+    # "for every ... seek pattern" on a re-used handle: the file-info and Index decoders start from what their init
+    # functions store
+    ck.rule("C13-INITCONS", "file-info / Index decoders: a member initialised on some OK paths of the init function is initialised on all")
+    reinit.check_init_consistency(ck, prog, "C13-INITCONS", files={"file_info.c", "index_decoder.c"})
+    ck.floor("C13-INITCONS", 5)
+    ck.rule("C13-READFIRST", "file-info / Index decoders: what the coding function can read before storing to it is stored by the init function on every path returning LZMA_OK")
+    reinit.check_read_first(ck, prog, "C13-READFIRST", files={"file_info.c", "index_decoder.c"})
+    ck.floor("C13-READFIRST", 8)
     prog_xz = common.program(ck, ("xz",), files=("/list.c",))
     check_provenance(ck, prog, prog_xz)
